@@ -424,6 +424,10 @@ def run(prog, rep, tier):
     rep.rule('MPO-bond-coherence', 'IdL / IdR / bond dimension used on one per-bond array '
              'belong to the same MPO bond (index polynomials)')
     rep.rule('HEFF-adjoint', 'adjoint() conjugates every tensor that matvec / to_matrix contract')
+    rep.rule('HEFF-conditional-attr', 'attributes bound only under a flag of the object are '
+             'read under the same test')
+    if check_conditional_attrs(prog, rep) < 4:
+        raise AnalysisError('HEFF-conditional-attr: LHeff / RHeff of OneSiteH not found')
     if check_heff_adjoint(prog, rep) < 2:
         raise AnalysisError('HEFF-adjoint: adjoint() of OneSiteH / TwoSiteH not found')
     if check_bond_coherence(prog, rep) < 2:
@@ -596,4 +600,78 @@ def check_heff_adjoint(prog, rep):
                 rep.violation('HEFF-adjoint', ci.module, ci.name + '.adjoint',
                               'not-conjugate:' + a,
                               '`%s` does not conjugate the tensor' % key_text(st)[:70], st.lineno)
+    return n
+
+
+# ------------------------------------------------------------------ HEFF-conditional-attr
+def _flag_guards(gs):
+    """{(flag text, polarity)} of guards that test a flag of the object: `self.f`, `not self.f`,
+    `self.f is False`, `self.f == True`, .."""
+    out = set()
+    for txt, pol, e in gs:
+        if isinstance(e, ast.Compare) and len(e.ops) == 1 and isinstance(
+                e.ops[0], (ast.Is, ast.Eq)) and isinstance(e.comparators[0], ast.Constant) and \
+                isinstance(e.comparators[0].value, bool) and is_self_attr(e.left):
+            out.add((unparse(e.left), pol == e.comparators[0].value))
+        elif is_self_attr(e):
+            out.add((txt, pol))
+    return out
+
+
+def check_conditional_attrs(prog, rep):
+    """HEFF-conditional-attr: an attribute of an effective Hamiltonian that is only ever bound
+    under a test of a flag of the object (OneSiteH.combine_Heff: LHeff if self.move_right else
+    RHeff) exists only in that configuration; every read of it in the class must sit under the
+    same test with the same polarity (hasattr-protected reads excepted)."""
+    ct = prog.classtable()
+    base = ct.get('EffectiveH')
+    n = 0
+    for ci in ct.cone(base):
+        cond = {}
+        uncond = set()
+        for name, f in ci.methods.items():
+            for st in stmts_of(f):
+                if not isinstance(st, ast.Assign):
+                    continue
+                for t in st.targets:
+                    if not is_self_attr(t):
+                        continue
+                    flags = {g for g in _flag_guards(guards_of(f, st))
+                             if g[0] != 'self.combine'}
+                    if flags:
+                        cond.setdefault(t.attr, []).append(flags)
+                    else:
+                        uncond.add(t.attr)
+        for attr, lst in cond.items():
+            if attr in uncond:
+                continue
+            common = set.intersection(*lst) if lst else set()
+            if not common:
+                continue
+            need = sorted(common)[0]
+            for name, f in ci.methods.items():
+                protected = {c.args[1].value for c in body_nodes(f) if isinstance(c, ast.Call) and
+                             call_name(c) in ('hasattr', 'getattr') and len(c.args) >= 2 and
+                             isinstance(c.args[1], ast.Constant)}
+                for x in body_nodes(f):
+                    if not (is_self_attr(x) and x.attr == attr and isinstance(x.ctx, ast.Load)):
+                        continue
+                    st = x
+                    while not isinstance(st, ast.stmt):
+                        st = parent(st)
+                    from ..pattern import guards_at
+                    have = _flag_guards(guards_at(f, x))
+                    n += 1
+                    ok = need in have or attr in protected
+                    rep.instance('HEFF-conditional-attr', {
+                        'class': ci.name, 'attribute': attr, 'bound_under': list(need),
+                        'read_in': name, 'guarded': ok})
+                    if not ok:
+                        rep.violation('HEFF-conditional-attr', ci.module, '%s.%s' % (ci.name, name),
+                                      'unguarded-read:' + attr,
+                                      '`self.%s` is only bound under `%s` == %s (the other '
+                                      'configuration builds its counterpart), but %s.%s reads it '
+                                      'without that test: AttributeError in the other '
+                                      'configuration' % (attr, need[0], need[1], ci.name, name),
+                                      x.lineno)
     return n
